@@ -1,5 +1,7 @@
 import WS.Lemmas.SrcLaw
 import WS.Lemmas.ReaderRejects
+import WS.Lemmas.CutLogic
+import WS.Lemmas.ReaderMore
 /-
   C05 — No silent truncation (source level): a cut stream is reported as an error exactly when the
   bytes asked for did not all arrive; what did arrive is delivered unchanged and in order. The
@@ -44,5 +46,53 @@ theorem no_data_after_error (c : Conn) (e : RErr) (he : c.r.readErr = some e) (r
 example :
     let b : Buf := { size := 16, t := { chunks := [[1, 2]], term := .eof } }
     (b.take 4).2.1 = some .unexpectedEOF := by decide
+
+open WS.Codec WS.ReaderDecodes WS.CutLogic WS.ReaderMore
+/-- cut_never_complete: the transport ends (EOF, error or timeout; alone or together with the last
+    bytes) at ANY byte offset strictly inside a conformant message, for any fragmentation, interleaved
+    control frames, chunking, buffer size and read size: the message is never reported complete.
+    Either NextReader fails, or the message reader fails with a non-nil error other than io.EOF after
+    delivering only a prefix of the payload (or NextReader raises the documented panic of the 1000th
+    failed call). -/
+theorem cut_never_complete (c : Conn) (hc : ReaderIdle c) (t : Nat) (ht : t = 1 ∨ t = 2)
+    (fs : List PFrame)
+    (hs : MsgShape t fs) (cut : Nat) (hcut : cut < (encAll c.r.isServer fs).length)
+    (hp : c.r.buf.pending = (encAll c.r.isServer fs).take cut)
+    (hsz : (dataPayload fs).length < 2 ^ 62) (hlim : c.r.limit ≤ 0)
+    (k : Nat) (hk : 0 < k) :
+    (∃ e, openAndRead c k = .failedOpen e ∧ c.r.errCount + 1 < 1000) ∨
+    (∃ got e, openAndRead c k = .failedRead t got e ∧ e ≠ .eof ∧ got <+: dataPayload fs) ∨
+    (1000 ≤ c.r.errCount + 1 ∧ openAndRead c k = .panicked) := by
+  first | exact CutLogic.cut_never_complete_or_panic_partial .. | (apply CutLogic.cut_never_complete_or_panic_partial <;> assumption)
+
+
+/-- the same on reachable reader states (the failed-call counter is 0 while no error is latched —
+    `reach_inv_nextReader`, `reach_inv_read` below): no panic alternative -/
+theorem cut_never_complete_reachable (c : Conn) (hc : ReaderIdle c) (hi : CountInv c) (t : Nat) (ht : t = 1 ∨ t = 2)
+    (fs : List PFrame) (hs : MsgShape t fs) (cut : Nat) (hcut : cut < (encAll c.r.isServer fs).length)
+    (hp : c.r.buf.pending = (encAll c.r.isServer fs).take cut)
+    (hsz : (dataPayload fs).length < 2 ^ 62) (hlim : c.r.limit ≤ 0) (k : Nat) (hk : 0 < k) :
+    (∃ e, openAndRead c k = .failedOpen e) ∨
+    (∃ got e, openAndRead c k = .failedRead t got e ∧ e ≠ .eof ∧ got <+: dataPayload fs) := by
+  have h0 : c.r.errCount = 0 := hi hc.noErr
+  exact CutLogic.cut_never_complete_partial c hc t ht fs hs cut hcut hp hsz hlim (by omega) k hk
+
+/-- … and when the whole message arrived before the transport ended it is reported complete and
+    byte-identical -/
+theorem whole_message_then_error (c : Conn) (hc : ReaderIdle c) (t : Nat) (ht : t = 1 ∨ t = 2) (fs : List PFrame)
+    (hs : MsgShape t fs)
+    (hp : c.r.buf.pending = encAll c.r.isServer fs) (htog : c.r.buf.t.together = false)
+    (hsz : (dataPayload fs).length < 2 ^ 62) (hlim : c.r.limit ≤ 0)
+    (k : Nat) (hk : 0 < k) :
+    openAndRead c k = .complete t (dataPayload fs) := by
+  first | exact CutLogic.whole_message_then_error .. | (apply CutLogic.whole_message_then_error <;> assumption)
+
+
+/-- the reachable-state invariant used above is preserved by NextReader and by Read -/
+theorem reach_inv_nextReader (c : Conn) (h : ReachInv c) : ReachInv (nextReader c).2 := by
+  first | exact ReaderMore.nextReader_reachInv_partial .. | (apply ReaderMore.nextReader_reachInv_partial <;> assumption)
+
+theorem reach_inv_read (c : Conn) (rid k : Nat) (hk : 0 < k) (h : ReachInv c) : ReachInv (mrRead c rid k).2 := by
+  first | exact ReaderMore.mrRead_reachInv .. | (apply ReaderMore.mrRead_reachInv <;> assumption)
 
 end WS.Props.C05
